@@ -3,7 +3,7 @@
 (* in MHz from 193.1 THz, so that the TLC-enumerated cases can be replayed on the real amplifiers:            *)
 (*   multi-band amplifier  C = [-1 875 000, 3 025 000]   L = [-6 600 000, -3 000 000]                          *)
 (*   test_fixed_gain       [-1 825 000, 3 025 000]       std_low_gain_bis [-1 850 000, 3 050 000]              *)
-(*   SI default            [-1 800 000, 2 000 000]                                                             *)
+(*   SI default            [-1 800 000, 2 000 000]       wide_band (variant)  [-7 100 000, 3 100 000]                  *)
 (* Candidates sit exactly on band edges, one MHz beyond them, in the C/L gap, touch each other exactly,        *)
 (* overlap by one MHz, have the baud rate equal to / one MHz above the slot, and two slot widths.              *)
 EXTENDS ChannelSet, TLC, Json
@@ -32,13 +32,22 @@ Multi == [kind |-> "multi", bands |-> << <<-1875000, 3025000>>, <<-6600000, -300
 MCPaths == << <<Amp(-1825000, 3025000), Passive, Amp(-1850000, 3050000)>>,          \* single band
               <<Multi, Passive, Multi>>,                                            \* multi band
               <<Multi, Passive, Amp(-1850000, 3050000)>>,                           \* mixed
-              <<Passive>> >>                                                        \* no amplifier at all
+              <<Passive>>,                                                          \* no amplifier at all
+              \* one wide band spanning L and C met before / after the multi-band amplifier: the common band is the
+              \* two bands of the multi-band amplifier whatever the order of the amplifiers on the path
+              <<Amp(-7100000, 3100000), Passive, Multi>>,
+              <<Multi, Passive, Amp(-7100000, 3100000)>> >>
 MCDefaultBand == <<-1800000, 2000000>>
 
 \* emission for the spec -> code replay (B2): one line per finished walk
 Terminal == status \in {"SpectrumError", "NoChannel"} \/ (status = "filtered" /\ pos = Len(Paths[pid]))
 Emit == ~Terminal \/ PrintT("@@" \o ToJson([input |-> input, pid |-> pid, status |-> status,
                                             launched |-> LaunchOutcome(input).spec, kept |-> kept, final |-> spec]))
+
+\* the band common to all amplifiers does not depend on the order in which the path meets them
+CommonIsOrderFree == \A c \in Candidates : InCommon(c, Paths[5]) = InCommon(c, Paths[6])
+                                           /\ InCommon(c, Paths[5]) = InCommon(c, Paths[2])
+ASSUME CommonIsOrderFree
 
 \* vacuity witnesses (each must be VIOLATED when listed as an invariant)
 WitnessMultiSplit == ~(status = "filtered" /\ pos = 3 /\ pid = 2 /\ \E c, d \in SeqSet(spec) : c.f < -3000000 /\ d.f > 0)
